@@ -70,9 +70,10 @@ def _is_zero(v):
 def _norm1(vals):
     nz = [v for v in vals if not _is_zero(v)]
     if not nz:
-        return 0.0
+        return _np.float64(0.0)
     if len(nz) == 1:
-        return abs(nz[0])
+        r = abs(nz[0])
+        return r if is_sym(r) else _np.float64(r)
     if any(is_sym(v) for v in nz):
         # squares of the concrete components are taken exactly (not in doubles), like the symbolic ones
         nz = [v if is_sym(v) else SReal(symx.lift(v)) for v in nz]
